@@ -28,6 +28,36 @@ pub mod bbsplus_utils {
     use rand::{thread_rng, RngCore};
     use std::any::{Any, TypeId};
 
+    /// `deserialize_with` helpers: the serde forms of keys, signatures and proofs refuse the values their octet decoders refuse
+    pub(crate) mod checked_serde {
+        use bls12_381_plus::{G1Projective, G2Projective, Scalar};
+        use serde::{de::Error, Deserialize, Deserializer};
+
+        pub(crate) fn g1_not_identity<'de, D: Deserializer<'de>>(d: D) -> Result<G1Projective, D::Error> {
+            let point = G1Projective::deserialize(d)?;
+            if point.is_identity().into() {
+                return Err(D::Error::custom("identity point"));
+            }
+            Ok(point)
+        }
+
+        pub(crate) fn g2_not_identity<'de, D: Deserializer<'de>>(d: D) -> Result<G2Projective, D::Error> {
+            let point = G2Projective::deserialize(d)?;
+            if point.is_identity().into() {
+                return Err(D::Error::custom("identity point"));
+            }
+            Ok(point)
+        }
+
+        pub(crate) fn scalar_not_zero<'de, D: Deserializer<'de>>(d: D) -> Result<Scalar, D::Error> {
+            let scalar = Scalar::deserialize(d)?;
+            if scalar == Scalar::ZERO {
+                return Err(D::Error::custom("zero scalar"));
+            }
+            Ok(scalar)
+        }
+    }
+
     pub(crate) fn parse_g2_projective_compressed(slice: &[u8]) -> Result<G2Projective, Error> {
         let point = G2Affine::from_compressed(
             &<[u8; G2Affine::COMPRESSED_BYTES]>::try_from(slice)
